@@ -526,8 +526,41 @@ def _target_class(c):
     return 'documented-target' if st in doc else 'undocumented-target'
 
 
+def xlist_cases():
+    for route in sorted(A.XP_LISTS):
+        for q in ('project_id=' + A.XP,
+                  'project_id=' + A.XP + '&fields=name',
+                  'project_id=' + A.XP + '&scope=private'):
+            yield {'kind': 'xlist', 'route': route, 'q': q,
+                   'dkey': ['cross-project-list', route, 'get_all']}
+
+
+def run_xlist(c):
+    """Listing across projects requires the admin-only rule: a member of
+    P1 asking for another project's resources by project_id, under the
+    default policy, gets none of that project's private rows."""
+    F = fixtures()
+    A.restore(F['snap'], F['fx']['_ids'] + 1000, F['fx']['_clock'])
+    A.set_policy(())
+    r = A.send('GET', '%s?%s' % (c['route'], c['q']), admin=False)
+    after = A.dump_db()
+    d = A.diff_db(F['dump0'], after)
+    viol = []
+    marker = A.XP_LISTS[c['route']]
+    body = json.dumps(r.get('json'), default=str) + (r['text'] or '')
+    if 200 <= r['status'] < 300 and marker in body:
+        viol.append(('cross-project-list',
+                     'GET %s?%s by a non-admin of another project, with the '
+                     'list:all_projects rule at its admin-only default, '
+                     'returned the private %s of project %s'
+                     % (c['route'], c['q'], marker, A.XP)))
+    return {'status': r['status'], 'hash': A.state_hash(after, r['msgs']),
+            'viol': viol, 'note': None, 'denied': r['status'] == 403,
+            'changed': bool(d)}
+
+
 RUNNERS = {'auth': run_auth, 'probe': run_probe, 'guard': run_guard,
-           'seq': run_seq}
+           'seq': run_seq, 'xlist': run_xlist}
 
 
 def run_case(c):
@@ -586,7 +619,7 @@ def main(tier):
 
     keys = set(found)
     core = list(auth_cases(tier, keys)) + list(probe_cases(keys)) + \
-        list(guard_cases())
+        list(guard_cases()) + list(xlist_cases())
     seq = list(seq_cases(keys)) if tier == 'thorough' else []
     cases = core + seq
     n_core = len(core)
